@@ -30,7 +30,58 @@ func implPass(raw json.RawMessage) (any, error) {
 	return world.Extract(res), nil
 }
 
-var passOpts = world.GenOpts{CapOverride: 0.3, MultiTaint: 0.3, InterPod: 0.15, NodeAffinity: 0.45, Existing: 0.7, Limits: 0.2}
+var passOpts = world.GenOpts{CapOverride: 0.3, MultiTaint: 0.3, InterPod: 0.15, NodeAffinity: 0.45, Existing: 0.7, Limits: 0.2,
+	Volumes: 0.3, Namespaces: 0.1, LabelInterplay: 0.2}
+
+// genExistingSeq: one or two nodes (any lifecycle stage, possibly unmanaged), and a BATCH of two to five small pods without
+// inter-pod constraints; every NodePool has a CPU limit of 0 so that no new capacity can be opened: every pod is evaluated
+// against the same ExistingNodes one after the other, in queue order.  Most batches are about one custom node label key that
+// the node carries or lacks (In / NotIn / Exists / DoesNotExist / node selector): what one pod's evaluation leaves behind on
+// the node must not change the verdict for the next pod.  Some batches mount zonal volumes.
+func genExistingSeq(r *rand.Rand, t core.Tier) any {
+	o := world.GenOpts{MultiTaint: 0.2, InterPod: 0, NodeAffinity: 0.5, Existing: 1.0}
+	its := world.GenITs(r, o)
+	pools := world.GenPools(r, its, o)
+	zero := int64(0)
+	for i := range pools {
+		pools[i].LimitCPU = &zero
+	}
+	nodes := world.GenNodes(r, its, pools, o)
+	if len(nodes) > 2 {
+		nodes = nodes[:2]
+	}
+	for i := range nodes {
+		nodes[i].Deleting = false
+		for j := range nodes[i].Pods {
+			nodes[i].Pods[j].Affinity, nodes[i].Pods[j].Spreads = nil, nil
+		}
+		// unmanaged nodes and a custom label of their own
+		if r.Float64() < 0.25 {
+			nodes[i].Labels["tier"] = world.GenCustomValue(r, "tier")
+		}
+	}
+	s := &world.Scenario{ITs: its, Pools: pools, Nodes: nodes, DaemonSets: world.GenDaemonSets(r, its), IgnorePrefs: r.Float64() < 0.25, Parallelism: 1}
+	n := 2 + r.IntN(4)
+	focus := r.Float64() < 0.75
+	key := world.GenCustomKey(r)
+	for i := 0; i < n; i++ {
+		p := world.GenPod(r, fmt.Sprintf("pod-%d", i), its, pools, o)
+		if focus {
+			world.ApplyLabelInterplay(r, &p, key)
+		} else if r.Float64() < 0.5 {
+			p.CPU = int64(100 * (1 + r.IntN(8)))
+		}
+		world.FixExprs(&p)
+		s.Pods = append(s.Pods, p)
+	}
+	if r.Float64() < 0.15 {
+		world.DecorateVolumes(r, s)
+	}
+	if s.DaemonSets == nil {
+		s.DaemonSets = []world.DaemonSet{}
+	}
+	return s
+}
 
 // genExisting: one node (any lifecycle stage, possibly unmanaged or deleting) with bound pods, daemonsets, and ONE pending
 // pod without inter-pod constraints; every NodePool has a CPU limit of 0 so that no new capacity can be opened.
@@ -67,6 +118,70 @@ func genExisting(r *rand.Rand, t core.Tier) any {
 	return s
 }
 
+// vocabularyLabels: which of the optional circumstances a scenario holds (input distribution evidence).
+func vocabularyLabels(s *world.Scenario, m map[string]any) []string {
+	var l []string
+	placed := map[string]bool{}
+	for _, k := range []string{"existing", "claims"} {
+		if e, ok := m[k].([]any); ok {
+			for _, x := range e {
+				if ps, ok := x.(map[string]any)["pods"].([]any); ok {
+					for _, p := range ps {
+						placed[p.(string)] = true
+					}
+				}
+			}
+		}
+	}
+	if len(s.PVCs) > 0 {
+		l = append(l, "volumes")
+		multi, placedVol := false, false
+		for _, p := range s.Pods {
+			if len(p.Volumes) > 1 {
+				multi = true
+			}
+			if len(p.Volumes) > 0 && placed[p.Name] {
+				placedVol = true
+			}
+		}
+		if multi {
+			l = append(l, "volumes-several-per-pod")
+		}
+		if placedVol {
+			l = append(l, "volumes-pod-placed")
+		}
+	}
+	if len(s.Namespaces) > 0 {
+		l = append(l, "several-namespaces")
+	}
+	custom := map[string]int{}
+	for _, p := range s.Pods {
+		seen := map[string]bool{}
+		for k := range p.NodeSelector {
+			if k == "team" || k == "tier" {
+				seen[k] = true
+			}
+		}
+		for _, t := range p.Required {
+			for _, e := range t {
+				if e.Key == "team" || e.Key == "tier" {
+					seen[e.Key] = true
+				}
+			}
+		}
+		for k := range seen {
+			custom[k]++
+		}
+	}
+	for _, c := range custom {
+		if c >= 2 {
+			l = append(l, "custom-label-constrained-by-several-pods")
+			break
+		}
+	}
+	return l
+}
+
 func Ops() []*core.Op {
 	return []*core.Op{
 		{
@@ -97,7 +212,7 @@ func Ops() []*core.Op {
 		{
 			Name: "c01.pass",
 			Doc:  "whole real Provisioner.Schedule passes on generated clusters (catalogs, NodePools, existing/in-flight/deleting/unmanaged nodes with bound pods, daemonsets, pending pods with selectors/affinity/preferences/tolerations/host ports); every placement judged by the Kubernetes admissibility spec",
-			N:    func(t core.Tier) int { return map[core.Tier]int{core.Quick: 400, core.Thorough: 8000}[t] },
+			N:    func(t core.Tier) int { return map[core.Tier]int{core.Quick: 600, core.Thorough: 8000}[t] },
 			Gen:  func(r *rand.Rand, t core.Tier) any { return world.GenScenario(r, passOpts) },
 			Impl: implPass,
 			Rule: "non-trivial = at least one pod was placed (on an existing node or a new NodeClaim)",
@@ -116,9 +231,39 @@ func Ops() []*core.Op {
 				if s, _ := m["err"].(string); s != "" {
 					l = append(l, "schedule-error")
 				}
+				var s world.Scenario
+				json.Unmarshal(raw, &s)
+				l = append(l, vocabularyLabels(&s, m)...)
 				return l
 			},
 			Signature: func(raw json.RawMessage, impl any) string { return "pass" },
+		},
+		{
+			Name: "c01.existingseq",
+			Doc:  "a batch of two to five pods evaluated one after the other against the same one or two ExistingNodes through the real scheduler (no new capacity possible): pods that constrain one custom node label in different ways (In / NotIn / Exists / DoesNotExist), zonal volumes; spec = admissibility of every placement the real scheduler made",
+			N:    func(t core.Tier) int { return map[core.Tier]int{core.Quick: 1500, core.Thorough: 30000}[t] },
+			Gen:  genExistingSeq,
+			Impl: implPass,
+			Rule: "non-trivial = at least one pod was placed on a node",
+			Nontrivial: func(raw json.RawMessage, impl any) bool {
+				m, _ := impl.(map[string]any)
+				e, _ := m["existing"].([]any)
+				return len(e) > 0
+			},
+			Labels: func(raw json.RawMessage, impl any) []string {
+				m, _ := impl.(map[string]any)
+				placed := 0
+				if e, ok := m["existing"].([]any); ok {
+					for _, x := range e {
+						if ps, ok := x.(map[string]any)["pods"].([]any); ok {
+							placed += len(ps)
+						}
+					}
+				}
+				er, _ := m["errors"].(map[string]any)
+				return []string{fmt.Sprintf("placed=%d", min(placed, 4)), fmt.Sprintf("rejected=%d", min(len(er), 4))}
+			},
+			Signature: func(raw json.RawMessage, impl any) string { return "existingseq" },
 		},
 		filterOp(),
 	}
